@@ -371,7 +371,8 @@ PROCS = [("src/lib.rs", "dealloc_chunk_list", "dealloc_chunk_list"),
          ("src/collections/vec.rs", "partition_dedup_by", "dedup_partition_loop", ("while", 1)),
          ("src/collections/vec.rs", "truncate", "vec_truncate_loop", ("for", 1)),
          ("src/lib.rs", "alloc_slice_fill_with", "slice_fill_with_loop", ("for", 1)),
-         ("src/lib.rs", "try_alloc_slice_fill_with", "try_slice_fill_with_loop", ("for", 1))]
+         ("src/lib.rs", "try_alloc_slice_fill_with", "try_slice_fill_with_loop", ("for", 1)),
+         ("src/lib.rs", "alloc_slice_try_fill_with", "slice_try_fill_with_loop", ("for", 1))]
 CONST_FILE = "src/lib.rs"
 
 
@@ -425,6 +426,7 @@ class Parser:
         self.i = 0
         self.skipped_asserts = 0
         self.closures = set()          # parameters that are caller-supplied closures (procedures only)
+        self.dropvars = set()          # names bound to the value a closure answered with (not recorded)
 
     # -- token helpers
     def peek(self, k=0):
@@ -672,6 +674,72 @@ class Parser:
                 body.append("SSet %s (EBin BAdd (EVar %s) (ELit 1))" % (q(ivar), q(ivar)))
                 out.append("SLet %s %s" % (q(ivar), lo))
                 out.append("SRepeat (EBin BSub %s %s) [%s]" % (hi, lo, "; ".join(body)))
+            elif tok == "match" and self.kind(1) == "id" and self.peek(1) in self.closures and self.peek(2) == "(":
+                # match f(args) { Ok(x) => <one call>, Err(e) => { .. } }: the closure is asked (its answer,
+                # Ok = true / Err = false, comes from the script; None: it panics); the value carried by
+                # the answer is not among the recorded arguments of the calls that receive it
+                self.eat()
+                f = self.eat()
+                a = self.args()
+                self.eat("{")
+                arms = {}
+                while self.peek() != "}":
+                    tag = self.eat()
+                    if tag not in ("Ok", "Err") or tag in arms:
+                        raise Unsupported("arm %r" % tag)
+                    self.eat("(")
+                    bound = self.eat()
+                    self.eat(")")
+                    self.eat("=>")
+                    if self.peek() == "{":
+                        self.eat("{")
+                        saved = self.dropvars
+                        self.dropvars = saved | {bound}
+                        body = self.proc_stmts()
+                        self.dropvars = saved
+                        self.eat("}")
+                        if self.peek() == ",":
+                            self.eat()
+                    else:
+                        depth, j = 0, self.i
+                        while not (depth == 0 and self.t[j][1] in (",", "}")):
+                            if self.t[j][1] in ("(", "[", "{"):
+                                depth += 1
+                            elif self.t[j][1] in (")", "]", "}"):
+                                depth -= 1
+                            j += 1
+                        sub = Parser(self.t[self.i:j] + [("op", ";"), ("op", "}")])
+                        sub.closures = self.closures
+                        sub.dropvars = self.dropvars | {bound}
+                        body = sub.proc_stmts()
+                        self.i = j
+                        if self.peek() == ",":
+                            self.eat()
+                    arms[tag] = body
+                self.eat("}")
+                if self.peek() == ";":
+                    self.eat()
+                if set(arms) != {"Ok", "Err"}:
+                    raise Unsupported("match arms")
+                out.append("SIfAsk false %s [%s] [%s] [%s]" % (q(f), "; ".join(a), "; ".join(arms["Ok"]), "; ".join(arms["Err"])))
+            elif tok == "return":
+                self.eat()
+                depth = 0
+                while not (depth == 0 and self.peek() == ";"):
+                    t = self.eat()
+                    if t in ("(", "[", "{"):
+                        depth += 1
+                    elif t in (")", "]", "}"):
+                        depth -= 1
+                self.eat(";")
+                out.append("SReturn")
+            elif tok == "self" and self.peek(1) == "." and self.kind(2) == "id" and self.peek(3) == "(":
+                # a method of the arena called for its effect: recorded under the method's name
+                self.eat(); self.eat()
+                f = self.eat()
+                a = self.args()
+                self.eat(";")
+                out.append("SDo %s [%s]" % (q(f), "; ".join(a)))
             elif tok == "while":
                 self.eat()
                 c = self.expr(no_struct=True)
@@ -744,6 +812,8 @@ class Parser:
                         c = self.eat()
                         ca = self.args()
                         out.append("SDoMay %s [%s]" % (q(c), "; ".join(ca)))
+                    elif self.kind() == "id" and self.peek() in self.dropvars and self.peek(1) in (",", ")"):
+                        self.eat()      # the value a closure's answer carried
                     else:
                         a.append(self.expr())
                     if self.peek() == ",":
